@@ -41,6 +41,18 @@ static void check_case(int d, const std::vector<double>& E, double t, const Alph
     double e2 = maxdiff(g2, want);
     maxstat("twostep_err/tol", e2 / tol);
     if ((int)r2.Dim() != d || !(e2 <= tol)) violation("PrepareEvolve+Evolve(buffer):mismatch:d=" + std::to_string(d), J().i("d", d).arr("spectrum", E).num("t", t).arr("A", a).arr("got", g2).arr("want", want).num("err", e2).num("tol", tol).done());
+    if (ai + 3 >= al.vecs.size() || ai < 2) {   // the evolved vector is a temporary / moved-from / chained result, consumed by construction, by assignment into empty, other-size and same-size targets
+      std::vector<std::pair<const char*, std::vector<double>>> got;
+      { SU_vector r = SU_vector(A).Evolve(buf.data()); got.push_back({"SU_vector(A).Evolve(buf) [construct]", comps(r)}); }
+      { SU_vector c = A; SU_vector r = std::move(c).Evolve(buf.data()); got.push_back({"move(A).Evolve(buf) [construct]", comps(r)}); }
+      { SU_vector r; r = SU_vector(A).Evolve(buf.data()); got.push_back({"empty = SU_vector(A).Evolve(buf)", comps(r)}); }
+      { SU_vector r(d == 2 ? 3 : 2); r = SU_vector(A).Evolve(buf.data()); got.push_back({"other-size = SU_vector(A).Evolve(buf)", comps(r)}); }
+      { SU_vector r(d); r = SU_vector(A).Evolve(buf.data()); got.push_back({"same-size = SU_vector(A).Evolve(buf)", comps(r)}); }
+      { SU_vector r = SU_vector(A).Evolve(H, t); got.push_back({"SU_vector(A).Evolve(H,t) [construct]", comps(r)}); }
+      { SU_vector r; r = SU_vector(A + A).Evolve(buf.data()); std::vector<double> g = comps(r); for (auto& x : g) x *= 0.5; got.push_back({"SU_vector(A+A).Evolve(buf)/2", g}); }
+      { std::vector<double> zb(d * (d - 1)); H.PrepareEvolve(zb.data(), 0.0); SU_vector r = SU_vector(A.Evolve(zb.data())).Evolve(buf.data()); got.push_back({"SU_vector(A.Evolve(buf0)).Evolve(buf) [chained]", comps(r)}); }
+      for (auto& g : got) { count("evaluations"); double e = maxdiff(g.second, want); if (!(e <= 2 * tol)) violation(std::string("Evolve:temporary-operand:d=") + std::to_string(d), J().str("form", g.first).i("d", d).arr("spectrum", E).num("t", t).arr("A", a).arr("got", g.second).arr("want", want).num("err", e).done()); }
+    }
     if (ai + 3 >= al.vecs.size() || ai == 0) {   // probes and the identity: the result consumed by += / -= into an unrelated vector
       std::vector<double> w0 = probe(d, 2); SU_vector wp = mkvec(d, w0), wm = mkvec(d, w0), wq = mkvec(d, w0);
       wp += A.Evolve(H, t); wm -= A.Evolve(buf.data()); wq += A.Evolve(buf.data());
